@@ -1,4 +1,5 @@
 import Pkgcore.Proofs.C10Solver
+import Pkgcore.Props.C10
 /-!
 # C10 — the REQUIRED_USE solver without the solver contract
 
@@ -211,3 +212,179 @@ theorem solver_preferred_first (P : Problem Var Val) (hwf : P.WF) (a : Var → V
   rw [hv, hag x v hv]
 
 end Pkgcore.C10.Solver
+
+/-! ## C10's solver-dependent theorems without the contract -/
+namespace Pkgcore.C10
+open Pkgcore.C09 Pkgcore.C10.Spec
+
+/-- what a solution of the solver model looks like from `find_constraint_satisfaction`'s side -/
+theorem render_of_is (inp : Inputs) (ts : List Dep) (s : Solver.Asg Tok Bool) (a : Tok → Bool)
+    (h : (problem inp ts).Is s a) : render (variables inp ts) s = (variables inp ts).map fun v => (v, a v) := by
+  unfold render
+  apply List.map_congr_left
+  intro v hv
+  have := h v (by rw [problem_keys]; exact hv)
+  unfold Solver.getVal
+  rw [this]; rfl
+
+/-- **Exactly the solutions** (no contract): for a structure without empty groups, the assignments
+`find_constraint_satisfaction` yields through the real solver's search are exactly the assignments of domain values
+that satisfy every compiled constraint.  (Right to left needs no guard.) -/
+theorem solutions_exact_faithful (inp : Inputs) (ts : List Dep) (hne : nonEmptyL ts = true) (al : List (Tok × Bool)) :
+    al ∈ solveFaithful inp ts ↔
+      (inProd al ((variables inp ts).map fun v => (v, domainOf inp v)) = true ∧
+       (compiled ts).all (·.eval (onOf al)) = true) := by
+  constructor
+  · intro h
+    unfold solveFaithful at h
+    obtain ⟨s, hs, rfl⟩ := List.mem_map.mp h
+    obtain ⟨h1, h2⟩ := Solver.solver_sound (problem inp ts) (problem_wf inp ts) s hs
+    have hval : ∀ v ∈ variables inp ts, Solver.getVal s v = some ((Solver.getVal s v).getD false) ∧
+        (Solver.getVal s v).getD false ∈ domainOf inp v := by
+      intro v hv
+      obtain ⟨b, hb, hd⟩ := h1 (v, domainOf inp v) (by simp only [problem, List.mem_map]; exact ⟨v, hv, rfl⟩)
+      unfold Solver.getVal
+      simp only at hb hd
+      rw [hb]; exact ⟨rfl, hd⟩
+    refine ⟨(inProd_map (domainOf inp) _ _).mpr fun v hv => (hval v hv).2, ?_⟩
+    rw [List.all_eq_true]
+    intro mc hmc
+    have hsub : ∀ x ∈ mc.flags, x ∈ variables inp ts := by
+      intro x hx
+      have := (problem_wf inp ts).scopes mc.toConstraint (by simp only [problem, List.mem_map]; exact ⟨mc, hmc, rfl⟩) x hx
+      rwa [problem_keys] at this
+    have := h2 mc.toConstraint (by simp only [problem, List.mem_map]; exact ⟨mc, hmc, rfl⟩)
+      (compiled_flags_ne_nil ts hne mc hmc)
+    have hk : Solver.known mc.toConstraint.scope s = Solver.restr mc.flags fun v => (Solver.getVal s v).getD false :=
+      known_eq_restr mc.flags s _ (fun x hx => (hval x (hsub x hx)).1)
+    rw [hk, toConstraint_pred mc _ (variables inp ts) hsub] at this
+    unfold render
+    rw [onOf_map]; exact this
+  · rintro ⟨hin, hall⟩
+    have hnd : (variables inp ts).Nodup := dedup_nodup _
+    have hshape := inProd_shape (domainOf inp) (variables inp ts) al hnd hin
+    rw [hshape] at hin hall
+    rw [onOf_map] at hall
+    have hdom := (inProd_map (domainOf inp) _ _).mp hin
+    have hsol : (problem inp ts).Sol fun v => (al.lookup v).getD false := by
+      constructor
+      · intro e he
+        simp only [problem, List.mem_map] at he
+        obtain ⟨v, hv, rfl⟩ := he
+        exact hdom v hv
+      · intro c hc
+        simp only [problem, List.mem_map] at hc
+        obtain ⟨mc, hmc, rfl⟩ := hc
+        have hsub : ∀ x ∈ mc.flags, x ∈ variables inp ts := by
+          intro x hx
+          have := (problem_wf inp ts).scopes mc.toConstraint (by simp only [problem, List.mem_map]; exact ⟨mc, hmc, rfl⟩) x hx
+          rwa [problem_keys] at this
+        have : mc.toConstraint.scope = mc.flags := rfl
+        rw [this, toConstraint_pred mc _ (variables inp ts) hsub]
+        exact List.all_eq_true.mp hall mc hmc
+    obtain ⟨s, hs, his⟩ := Solver.solver_complete (problem inp ts) (problem_wf inp ts) _ hsol
+    unfold solveFaithful
+    rw [List.mem_map]
+    refine ⟨s, hs, ?_⟩
+    rw [render_of_is inp ts s _ his]
+    exact hshape.symm
+
+/-- `|| ( )` (an empty group, which the parser never builds) compiles to a constraint without variables; the real solver
+never calls such a constraint, so the false rule does not stop the (empty) assignment from being yielded -/
+theorem solutions_exact_faithful_counterexample :
+    solveFaithful ⟨[], [], [], []⟩ [.grp .or []] = [[]] ∧ (compiled [.grp .or []]).all (·.eval (onOf [])) = false := by
+  decide
+
+/-- **Sound** (no contract): every assignment yielded by the modelled solver satisfies the compiled constraints, hence
+(guard) the REQUIRED_USE. -/
+theorem solutions_sound_faithful (inp : Inputs) (ts : List Dep) (hne : nonEmptyL ts = true) (a : List (Tok × Bool))
+    (ha : a ∈ solveFaithful inp ts) :
+    (compiled ts).all (·.eval (onOf a)) = true ∧ (choiceCondFreeL ts = true → evalRU ts (onOf a) = true) := by
+  have h := ((solutions_exact_faithful inp ts hne a).mp ha).2
+  exact ⟨h, fun hg => by rw [← compile_equiv_partial ts _ hg hne]; exact h⟩
+
+/-- **Complete** (no contract): every assignment that gives each variable a value of its domain and satisfies the
+REQUIRED_USE (guard) is yielded by the modelled solver. -/
+theorem solutions_complete_faithful (inp : Inputs) (ts : List Dep) (a : List (Tok × Bool))
+    (hdom : inProd a ((variables inp ts).map fun v => (v, domainOf inp v)) = true)
+    (hg : choiceCondFreeL ts = true) (hne : nonEmptyL ts = true) (hsat : evalRU ts (onOf a) = true) :
+    a ∈ solveFaithful inp ts :=
+  (solutions_exact_faithful inp ts hne a).mpr ⟨hdom, by rw [compile_equiv_partial ts _ hg hne]; exact hsat⟩
+
+/-- **Exactly once** (no contract). -/
+theorem solutions_nodup_faithful (inp : Inputs) (ts : List Dep) : (solveFaithful inp ts).Nodup := by
+  unfold solveFaithful
+  have hp := Solver.solver_nodup (problem inp ts) (by
+    intro e he
+    simp only [problem, List.mem_map] at he
+    obtain ⟨v, _, rfl⟩ := he
+    exact domainOf_nodup inp v)
+  have hsound := Solver.solver_sound (problem inp ts) (problem_wf inp ts)
+  unfold List.Nodup
+  rw [List.pairwise_map]
+  refine List.Pairwise.imp_of_mem ?_ hp
+  intro s t hs ht ⟨x, hx, hne⟩ heq
+  rw [problem_keys] at hx
+  have hsx := (hsound s hs).1 (x, domainOf inp x) (by simp only [problem, List.mem_map]; exact ⟨x, hx, rfl⟩)
+  have htx := (hsound t ht).1 (x, domainOf inp x) (by simp only [problem, List.mem_map]; exact ⟨x, hx, rfl⟩)
+  obtain ⟨b, hb, _⟩ := hsx
+  obtain ⟨b', hb', _⟩ := htx
+  simp only at hb hb'
+  have h1 : (x, (Solver.getVal s x).getD false) ∈ render (variables inp ts) s := List.mem_map.mpr ⟨x, hx, rfl⟩
+  rw [heq] at h1
+  obtain ⟨y, _, hy⟩ := List.mem_map.mp h1
+  simp only [Prod.mk.injEq] at hy
+  obtain ⟨rfl, hy2⟩ := hy
+  unfold Solver.getVal at hy2
+  rw [hb, hb'] at hy2
+  simp only [Option.getD_some] at hy2
+  rw [hb, hb', hy2] at hne
+  exact hne rfl
+
+/-- **Preference first** (no contract): when the preferred assignment (forced flags as forced, preferred flags on,
+every other flag off) satisfies the constraints, it is the first assignment the modelled solver yields. -/
+theorem preferred_first_faithful (inp : Inputs) (ts : List Dep)
+    (h : (compiled ts).all (·.eval (onOf (preferred inp (variables inp ts)))) = true) :
+    (solveFaithful inp ts).head? = some (preferred inp (variables inp ts)) := by
+  have hpref : preferred inp (variables inp ts)
+      = (variables inp ts).map fun v => (v, (domainOf inp v).getLast?.getD false) := rfl
+  rw [hpref, onOf_map] at h
+  obtain ⟨s, hs, his⟩ := Solver.solver_preferred_first (problem inp ts) (problem_wf inp ts)
+    (fun v => (domainOf inp v).getLast?.getD false)
+    (by
+      intro e he
+      simp only [problem, List.mem_map] at he
+      obtain ⟨v, _, rfl⟩ := he
+      simp only
+      cases hl : (domainOf inp v).getLast? with
+      | none => exact absurd (List.getLast?_eq_none_iff.mp hl) (domainOf_ne_nil inp v)
+      | some b => rfl)
+    (by
+      intro c hc
+      simp only [problem, List.mem_map] at hc
+      obtain ⟨mc, hmc, rfl⟩ := hc
+      have hsub : ∀ x ∈ mc.flags, x ∈ variables inp ts := by
+        intro x hx
+        have := (problem_wf inp ts).scopes mc.toConstraint (by simp only [problem, List.mem_map]; exact ⟨mc, hmc, rfl⟩) x hx
+        rwa [problem_keys] at this
+      have : mc.toConstraint.scope = mc.flags := rfl
+      rw [this, toConstraint_pred mc _ (variables inp ts) hsub]
+      exact List.all_eq_true.mp h mc hmc)
+  unfold solveFaithful
+  rw [List.head?_map, hs, Option.map_some, render_of_is inp ts s _ his, hpref]
+
+/-- **The contract is discharged**: on structures without empty groups the modelled solver yields the solutions of the
+contract model `solve` (cartesian product filtered by the constraints), each once, possibly in another order. -/
+theorem faithful_perm_contract (inp : Inputs) (ts : List Dep) (hne : nonEmptyL ts = true) :
+    (solveFaithful inp ts).Perm (solve inp ts) := by
+  rw [List.perm_ext_iff_of_nodup (solutions_nodup_faithful inp ts) (solutions_nodup inp ts)]
+  intro al
+  rw [solutions_exact_faithful inp ts hne al]
+  unfold solve
+  rw [List.mem_filter, mem_product]
+
+/-- `^^ ( a b )`, IUSE a b, prefer b: the preferred solution (b alone) first, then a alone -/
+example : (solveFaithful ⟨[['a'], ['b']], [], [], [['b']]⟩ [.grp .justOne [.leaf ['a'] none, .leaf ['b'] none]]).map onOf
+    = [[['b']], [['a']]] := by decide
+
+end Pkgcore.C10
